@@ -15,6 +15,8 @@ the public functions of the numeric modules are therefore wrapped (harness-side 
       near    f(a) was just called; now f(a*(1+1e-7))                          -- memo keyed on "close enough" / rounded keys
       alias   f(b); b *= 1.001 in place (the caller re-uses its container); f(b)  -- cache holding a reference
       repeat  f(a) a second time                                               -- state machines driven by repeated calls
+* container probe (same schedule): the same numbers passed as a list, a tuple or an ndarray must give the same result (found:
+  three laue omega solvers raised TypeError on a list where tools accepts it -- repaired).
 * dtype probe (same schedule): integer-valued arguments passed once as floats and once as Python ints / integer arrays
   (a random subset of the arguments whose components are 0 or of magnitude >= 1, rounded to integers first) must give
   the same result to 1e-9: the properties quantify over values, not over the numeric type a caller happens to use.
@@ -186,6 +188,38 @@ def _dtype_probe(modname, name, f, args, kw):
             return
 
 
+CONTAINER_EVENTS = []
+NO_CONTAINER = set()
+
+
+def _container_variants(a):
+    """the same numbers in the other containers a caller may use"""
+    if isinstance(a, np.ndarray) and a.dtype.kind == 'f' and a.ndim in (1, 2) and 0 < a.size <= 64:
+        return [('list', a.tolist()), ('tuple', tuple(map(tuple, a.tolist())) if a.ndim == 2 else tuple(a.tolist()))]
+    if isinstance(a, list) and 0 < len(a) <= 16 and all(isinstance(x, (int, float, np.generic)) and not isinstance(x, bool) for x in a):
+        return [('ndarray', np.array(a, dtype=float)), ('tuple', tuple(a))]
+    if isinstance(a, list) and 0 < len(a) <= 4 and all(isinstance(r, list) and 0 < len(r) <= 4 and all(isinstance(x, (int, float)) for x in r) for r in a):
+        return [('ndarray', np.array(a, dtype=float))]
+    return []
+
+
+def _container_probe(modname, name, f, args, kw, live):
+    if live[0] != 'ok' or _flat(live[1]) is None:
+        return
+    for i, a in enumerate(args):
+        for label, v in _container_variants(a):
+            b = list(copy.deepcopy(args))
+            b[i] = v
+            r = _call(f, b, copy.deepcopy(kw))
+            STATS['container_probes'] = STATS.get('container_probes', 0) + 1
+            bad = r[0] != 'ok' or not _close(live[1], r[1])
+            if bad and len(CONTAINER_EVENTS) < 40:
+                CONTAINER_EVENTS.append({'fn': '%s.%s' % (modname.split('.')[-1], name), 'arg_index': i, 'container': label,
+                                         'original_container': type(a).__name__, 'args': _plain(args),
+                                         'result': _plain(live[1]), 'result_other_container': _plain(r[1]) if r[0] == 'ok' else 'raised ' + str(r[1])})
+                return
+
+
 def _plain(x):
     if isinstance(x, np.ndarray):
         return x.tolist()
@@ -354,6 +388,11 @@ def _wrap(modname, name, f):
                         _dtype_probe(modname, name, f, a0, k0)
                 except Exception:
                     pass
+                try:
+                    if name not in NO_CONTAINER and not slow:
+                        _container_probe(modname, name, f, a0, k0, live)
+                except Exception:
+                    pass
                 finally:
                     _depth[0] -= 1
     g.__purity_guard__ = True
@@ -407,6 +446,15 @@ def violations():
                         what='integer-valued arguments give a different result when passed as ints than when passed as floats '
                              '(argument positions %s)' % e['int_typed_positions'],
                         observed=e['result_int_typed'], expected=e['result_float_typed']))
+    for e in CONTAINER_EVENTS:
+        k = (e['fn'], 'container')
+        if k in seen:
+            continue
+        seen.add(k)
+        out.append(dict(e, purity='container', known_id=None,
+                        what='the same numbers passed in another container (%s instead of %s, argument %d) give a different result or an '
+                             'exception' % (e['container'], e['original_container'], e['arg_index']),
+                        observed=e['result_other_container'], expected=e['result']))
     return out
 
 
@@ -420,6 +468,17 @@ def replay(v):
 
     def conv(x):
         return np.array(x, float) if isinstance(x, list) and x and isinstance(x[0], list) else x
+    if v.get('purity') == 'container':
+        base = [np.array(x, float) if (i == v['arg_index'] and v['original_container'] == 'ndarray') else conv(x) for i, x in enumerate(v['args'])]
+        other = list(copy.deepcopy(base))
+        x = v['args'][v['arg_index']]
+        other[v['arg_index']] = {'list': lambda: np.array(x, float).tolist(), 'ndarray': lambda: np.array(x, float),
+                                 'tuple': lambda: (tuple(map(tuple, x)) if x and isinstance(x[0], list) else tuple(x))}[v['container']]()
+        r1, r2 = _call(f, base, dict(v.get('kwargs') or {})), _call(f, other, dict(v.get('kwargs') or {}))
+        bad = r1[0] == 'ok' and (r2[0] != 'ok' or not _close(r1[1], r2[1]))
+        print('replay %s (container): %s %s | %s %s -> %s' % (v['fn'], v['original_container'], _plain(r1[1]), v['container'], _plain(r2[1]),
+                                                             'VIOLATION' if bad else 'holds'))
+        return 1 if bad else 0
     if v.get('purity') == 'dtype':
         def arr(x, kind):
             return np.array(x, dtype=kind) if isinstance(x, list) and x and isinstance(x[0], list) else x
